@@ -4,10 +4,11 @@
    reported elements as a function of the number of bits present.  Every field of every layout
    function of Spec/Layouts.v is a slice [sl bs o w] with o + w at most the threshold under which
    the parser fails, so no value is ever built from bits beyond the end.
-   Type 15: proved for the three specification-legal forms and the mandatory part; other lengths
-   are covered by the correspondence only (C14 partial for type 15, see DESIGN.md). *)
+   Type 15: proved at every length against the positional specification [interrogation_of]
+   (which requests and stations are present is a function of the number of bits), with the three
+   specification-legal forms as instances. *)
 From Ais Require Import Model.Base Model.Enums Model.Fields Model.Messages Model.Unarmor Model.Sentence
-  Spec.Layouts Proofs.Bits Proofs.Reads Proofs.Layouts Proofs.Dispatch Proofs.MsgLevel.
+  Spec.Layouts Proofs.Bits Proofs.Reads Proofs.Layouts Proofs.Dispatch Proofs.MsgLevel Proofs.Interrogation.
 From Coq Require Import Lia.
 Local Open Scope N_scope.
 
@@ -228,6 +229,30 @@ Theorem C14_interrogation_two_stations :
   forall c q bs, sl bs 0 6 = 15 -> length bs = 160%nat -> parse_bits c q bs = Ok (Interrogation (interrogation_160 bs)).
 Proof. exact msg_type15_160. Qed.
 Print Assumptions C14_interrogation_two_stations.
+
+(* type 15 at every length: the decoded message is [interrogation_of], whose optional slot
+   offsets, second request and second station are present exactly when enough bits are *)
+Theorem C14_interrogation_any_length :
+  forall c q bs, sl bs 0 6 = 15 ->
+    parse_bits c q bs = match interrogation_of bs with Some (m, _) => Ok (Interrogation m) | None => Err ENmea end.
+Proof. exact msg_type15_any. Qed.
+Print Assumptions C14_interrogation_any_length.
+Theorem C14_interrogation_rejected_lengths :
+  forall bs, interrogation_of bs = None <->
+    let L := length bs in
+    (L < 76 \/ 138 <= L < 148 \/ 154 <= L < 156 \/ 158 <= L < 160 \/ 166 <= L < 168 \/ 178 <= L < 180)%nat.
+Proof. exact interrogation_rejected_lengths. Qed.
+Print Assumptions C14_interrogation_rejected_lengths.
+Theorem C14_interrogation_rejected_bytes :
+  forall c q bs k, sl bs 0 6 = 15 -> length bs = (8 * k)%nat ->
+    (parse_bits c q bs = Err ENmea <-> (k < 10 \/ k = 18)%nat).
+Proof. exact msg_type15_rejected_bytes. Qed.
+Print Assumptions C14_interrogation_rejected_bytes.
+Theorem C14_interrogation_station_count :
+  forall bs m e, interrogation_of bs = Some (m, e) ->
+    length (in_stations m) = (if (length bs <? 138)%nat then 1 else 2)%nat.
+Proof. exact interrogation_station_count. Qed.
+Print Assumptions C14_interrogation_station_count.
 
 Example C14_nonvacuous :
   exists m, msg_parse Std quirks_asis [28; 0; 0; 0; 4; 0; 0; 0; 5; 0; 0; 0; 10] = Ok (BinaryAcknowledgeMessage m) /\ length (am_acks m) = 2%nat.
